@@ -9,9 +9,9 @@ from .. import core, env
 LEVEL = 'exploration'
 MANIFEST = {
   'engine': 'enumx',
-  'technique': 'bounded-exhaustive enumeration of every string over a 9-letter alphabet (up to length 6 / 8) through '
+  'technique': 'bounded-exhaustive enumeration of every string over a 10-letter alphabet incl. whitespace (up to length 6 / 7) through '
                'the real path functions, plus real create() of every string up to length 4 in a scratch tree',
-  'text': 'Every string over {a b . / ; = ~ _ e-acute} up to length 6 (thorough 8) is mapped by '
+  'text': 'Every string over {a b . / ; = ~ _ e-acute space} up to length 6 (thorough 7) is mapped by '
           'WhisperDatabase.getFilesystemPath and CeresDatabase.getFilesystemPath (both TAG_HASH_FILENAMES values); '
           'normpath must lie strictly under the data directory and two calls must agree. Injectivity is checked on the '
           'sub-domain of untagged names with non-empty dot-separated segments and no separator (up to length 6). '
@@ -22,7 +22,7 @@ MANIFEST = {
           'covered.',
 }
 
-ALPHABET = ['a', 'b', '.', '/', ';', '=', '~', '_', 'é']
+ALPHABET = ['a', 'b', '.', '/', ';', '=', '~', '_', 'é', ' ']
 
 
 class S(dict):
@@ -135,7 +135,7 @@ def run(ctx):
   env.boot(standins=True)
   data_dir = os.path.join(env.scratch(), 'c14', 'outer', 'data')
   os.makedirs(data_dir, exist_ok=True)
-  maxlen = ctx.pick(6, 8)
+  maxlen = ctx.pick(6, 7)
   plen = 2
   prefixes = [''] + [''.join(t) for k in range(1, plen + 1) for t in itertools.product(ALPHABET, repeat=k)]
   # '' handles the empty string only; prefixes of length 1 handle themselves only; length-2 prefixes everything longer
